@@ -306,9 +306,9 @@ def policy_execute(case):
         if name == "codel":
             while len(held) > len(p):
                 held.pop(min(held))
-    check("after drain")
     if aborted:
         return _fin(r, name, full_seen, acc)
+    check("after drain")
     if len(p) != 0 and name != "deadline":
         bad(f"drain-leaves-items/{name}", f"len={len(p)} after popping until None")
     left = [i for i in held if not (name == "deadline" and held[i].dl < now[0])]
